@@ -1,4 +1,5 @@
 import SwcVerif.Props.C06
+import SwcVerif.Props.C06Gen
 #print axioms C06.toSubTopology_spec
 #print axioms C06.toSubTopology_ok_iff
 #print axioms C06.attrs_preserved
@@ -13,3 +14,5 @@ import SwcVerif.Props.C06
 #print axioms C06.cutByOrder_rule
 #print axioms C06.isFurcation_iff
 #print axioms C06.cutShortTip_removed
+#print axioms RefineSub.toSubTopology_refines
+#print axioms C06.generated_toSubTopology_eq_model
